@@ -90,6 +90,7 @@ def run_bin(variant, binname, tier, extra, part_out=None, replay=None, timeout=N
     bindir = os.path.join(TARGET, variant, "debug")
     cmd = [os.path.join(bindir, binname), tier, "--variant", variant] + list(extra)
     if part_out:
+        os.makedirs(os.path.dirname(part_out), exist_ok=True)
         cmd += ["--part-out", part_out]
     if replay:
         cmd += ["--replay", replay]
